@@ -73,6 +73,7 @@ def _run_case_sym(args):
         out["lemmas"] = lem[0]
         out["rewrites"] = dict(inst.rewrites)
         ctx_by_path = {c.path_no: c for c in ctxs}
+        notproved = {}
         for ob in res.obligations:
             c = ctx_by_path.get(ob.path)
             if ob.kind == "cover":
@@ -84,8 +85,13 @@ def _run_case_sym(args):
                 continue
             if ob.status == "proved":
                 st, be, secs, model = "proved", ob.backend, ob.time_s, None
+            elif notproved.get(ob.oid, 0) >= 3:
+                # this clause already failed on three paths of the case: do not spend solver time again
+                st, be, secs, model = "unknown", "skipped-after-3-failures", 0.0, None
             else:
                 st, be, secs, model = solve.check_valid(ob.pc, ob.goal, c)
+                if st != "proved":
+                    notproved[ob.oid] = notproved.get(ob.oid, 0) + 1
             rec = {"id": ob.oid, "path": ob.path, "status": st, "backend": be, "time_s": round(secs, 4),
                    "note": ob.note, "npc": len(ob.pc)}
             if st != "proved":
@@ -453,7 +459,7 @@ class Report:
         for oid, path, repro in seen_v.values():
             print("VIOLATION property=%s replay=%s obligation=%s%s"
                   % (pid, path, oid, "" if repro else " no-failing-input-found"))
-        for u in self.undecided:
+        for u in sorted(set(self.undecided)):
             print("UNDECIDED %s" % u)
         for c in self.crashes:
             print("CHECKER-ERROR %s" % c)
